@@ -11,8 +11,8 @@
                            (NotifyNewBlocks on the requester while the request was open, from = 0);
      Close(r)              the channel closes; without cancellation only after every distinct key
                            has been delivered;
-     Snapshot(n, W)        GetWantlist() read after the node settled: only keys that an open
-                           request of that node is still waiting for (Cleanup);
+     Snapshot(n, W)        GetWantlist() read after the node settled: only keys of requests of
+                           that node that are still open (Cleanup);
      Timeout(r)            the driver's deadline expired: never for a request that is obliged to
                            finish (cancelled, or every missing key held by a neighbour / arrived
                            locally) -- the operational form of the liveness clause.
@@ -51,7 +51,10 @@ Got(r)     == Range(delivered[r])
 Open(r)    == rq[r].st = "open"
 Awaited(r) == KeySet(r) \ Got(r)
 OpenAt(n)  == {r \in Req : Open(r) /\ rq[r].node = n}
-LiveWanted(n) == UNION {Awaited(r) : r \in OpenAt(n)}
+\* keys that may legitimately be on node n's want-list: those of its requests that are still open
+\* (the property speaks about the time after completion / cancellation; a key already delivered to a
+\* request that is still waiting for others is not required to be gone yet)
+LiveWanted(n) == UNION {KeySet(r) : r \in OpenAt(n)}
 
 Reachable(n, b) == \E m \in adj[n] : b \in has[m]
 \* where may block b handed to request r come from?
